@@ -29,7 +29,10 @@ RULE = ("seeded histories of check_file / did_upload / did_check_healthy / check
         "(also on stale result objects), whole backup runs following tahoe_backup.py's protocol, file edits (size, mtime, ctime, "
         "reverts, renames), writes inside the upload window — between check_file(path) and result.did_upload(cap): same-size and "
         "size-changing modification, append, touch, replace-by-rename, delete/recreate, delete — followed by runs with trusted "
-        "timestamps, six tool-level cases through the real BackerUpper.upload with the HTTP PUT faked (the file is written during "
+        "timestamps, whole backup runs through the real tahoe_backup machinery (collect_backup_targets, run_backup, "
+        "BackerUpper.upload / upload_directory; do_http and mkdir faked, content-derived caps, virtual mtime/ctime) mixing ordinary "
+        "and --ignore-timestamps runs with silent (same stat) and loud content changes, touches, renames and clock jumps, "
+        "six tool-level cases through the real BackerUpper.upload with the HTTP PUT faked (the file is written during "
         "the PUT), clock jumps around the 1- and 2-month thresholds, table dumps and database reopen; a case is one API "
         "call; distinct = distinct (history prefix, call); non-trivial = a check_file on a path that has an upload record or a "
         "check_directory after at least one did_create")
@@ -634,6 +637,236 @@ def tool_level(ctx, tmp, variant):
                       "stale-cap-reused:written-during-upload")
 
 
+# ------------------------------------------------------------------------------------------------ whole backup runs
+# The real tahoe_backup machinery (collect_backup_targets / run_backup / BackerUpper.upload / upload_directory) on real
+# files with a virtual mtime/ctime laid over os.stat *in backupdb's namespace*, do_http and mkdir faked: a PUT hands out
+# a content-derived (convergent) cap, mkdir a fresh dircap.  Runs are ordinary or --ignore-timestamps.
+
+class OverlayOS:
+    path = os.path
+
+    def __init__(self):
+        self.overlay = {}
+
+    def stat(self, p):
+        s = os.stat(p)
+        t = list(s[:10])
+        if p in self.overlay:
+            t[statmod.ST_MTIME], t[statmod.ST_CTIME] = self.overlay[p]
+        return tuple(t)
+
+
+def content_cap(data):
+    return b"URI:CHK:" + hashlib.sha256(data).hexdigest()[:24].encode("ascii")
+
+
+def gen_toolrun(rng, n):
+    """steps: create/silent/loud/touch/rename/tick/backup; contents are part of the steps so a history replays exactly"""
+    steps, files, clock, serial = [], {}, [1000], [0]
+    names = ["f0", "f1", "d1/f0", "d1/f2", "d2/f1", "Makefile", "d1/makefile"]
+
+    def content(size):
+        serial[0] += 1
+        return (b"%06d" % serial[0]).ljust(size, b".")
+
+    def create():
+        p = rng.choice(names)
+        if p in files:
+            return
+        c = content(rng.choice([8, 12, 16]))
+        clock[0] += rng.choice([0, 1, 5])
+        files[p] = [len(c), clock[0], clock[0]]
+        steps.append(["create", p, c.hex(), clock[0], clock[0]])
+
+    for _ in range(rng.choice([1, 2, 3])):
+        create()
+    while len(steps) < n:
+        op = rng.choice(["create", "silent", "silent", "loud", "touch", "rename", "tick", "backup", "backup", "backup",
+                         "backup-ign", "backup-ign"])
+        if op == "create" or not files:
+            create()
+        elif op == "silent":                      # new bytes, same size, mtime and ctime unchanged
+            p = rng.choice(sorted(files))
+            steps.append(["silent", p, content(files[p][0]).hex()])
+        elif op == "loud":
+            p = rng.choice(sorted(files))
+            c = content(files[p][0] + rng.choice([0, 1, 4]))
+            clock[0] += rng.choice([1, 2])
+            files[p] = [len(c), clock[0], clock[0]]
+            steps.append(["loud", p, c.hex(), clock[0], clock[0]])
+        elif op == "touch":
+            p = rng.choice(sorted(files))
+            clock[0] += 1
+            files[p][1] = rng.choice([clock[0], files[p][1]]); files[p][2] = clock[0]
+            steps.append(["touch", p, files[p][1], files[p][2]])
+        elif op == "rename":
+            p = rng.choice(sorted(files)); q = rng.choice(names)
+            if q not in files:
+                clock[0] += rng.choice([0, 1])
+                files[q] = files.pop(p); files[q][2] = clock[0]
+                steps.append(["rename", p, q, clock[0]])
+        elif op == "tick":
+            steps.append(["tick", rng.choice([1, 3600, 86400, MONTH + MONTH // 2, 2 * MONTH + 1])])
+        else:
+            steps.append(["backup", op == "backup-ign", rng.randrange(1024), rng.random() < 0.7])
+    steps.append(["backup", False, rng.randrange(1024), True])
+    return steps
+
+
+TOOLRUN_CORPUS = [
+    # ordinary run records capA; the bytes change but size/mtime/ctime do not; an --ignore-timestamps run uploads capB and
+    # must record it: the next ordinary run reuses capB, not capA                                  [seeded change C42-e]
+    [["create", "report.txt", b"version ONE of the report".hex(), 1000, 1000], ["create", "d1/notes.txt", b"some notes".hex(), 1000, 1000],
+     ["backup", False, 0, True], ["silent", "report.txt", b"version TWO of the report".hex()], ["backup", True, 0, True],
+     ["backup", False, 0, True], ["tick", 2 * MONTH + 1], ["backup", False, 1023, True], ["backup", False, 1023, False],
+     ["loud", "d1/notes.txt", b"more notes!".hex(), 1010, 1010], ["backup", True, 0, True], ["backup", False, 0, True]],
+]
+
+
+def execute_toolrun(ctx, steps, tmp, idx, case):
+    import datetime
+    import json
+    from allmydata.scripts import tahoe_backup
+    from allmydata.util.encodingutil import listdir_unicode
+    base = os.path.join(tmp, "run%d" % idx)
+    root = os.path.join(base, "home")
+    os.makedirs(root)
+    w = World(":memory:")
+    ov = OverlayOS()
+    w.mod.os = ov                      # World.close() restores the module's names
+    outs, toks = [], []
+    last_upload = {}                   # path -> (cap, (size, mtime, ctime))            [statement side]
+    dir_contents = {}                  # dircap -> {name: cap} it was created with
+    counter = [0]
+    flags = {"ign": False, "healthy": True, "k": 0}
+
+    class Resp:
+        def __init__(self, status, body):
+            self.status, self._body = status, body
+
+        def read(self):
+            return self._body
+
+    def fake_do_http(method, url, body=b""):
+        if method == "PUT" and url.endswith("uri"):
+            data = body.read()
+            body.close()
+            return Resp(200, content_cap(data))
+        if method == "POST" and "t=check" in url:
+            return Resp(200, json.dumps({"results": {"healthy": flags["healthy"]}}).encode("ascii"))
+        raise AssertionError((method, url))
+
+    def fake_mkdir(contents, options):
+        counter[0] += 1
+        d = b"URI:DIR2-CHK:d%d" % counter[0]
+        dir_contents[d] = dict((name, contents[name][1]) for name in contents)
+        return d
+
+    class Options(dict):
+        stdout = io.StringIO()
+        stderr = io.StringIO()
+
+    opts = Options({"node-url": "http://127.0.0.1:1/", "ignore-timestamps": False, "verbose": False, "quiet": True})
+    bu = tahoe_backup.BackerUpper(opts)
+    bu.verbosity = 0
+    bu.backupdb = w.bdb
+    saved = (tahoe_backup.do_http, tahoe_backup.mkdir)
+    tahoe_backup.do_http, tahoe_backup.mkdir = fake_do_http, fake_mkdir
+
+    def full(rel):
+        return os.path.join(root, *rel.split("/"))
+
+    def put(rel, data):
+        p = full(rel)
+        os.makedirs(os.path.dirname(p), exist_ok=True)
+        with open(p, "wb") as f:
+            f.write(data)
+        return p
+
+    def upload_file(path):
+        st = ov.stat(path)
+        cur = (st[statmod.ST_SIZE], st[statmod.ST_MTIME], st[statmod.ST_CTIME])
+        with open(path, "rb") as f:
+            newcap = content_cap(f.read())
+        had = path in last_upload
+        created, cap, metadata = bu.upload(path)
+        toks.append("tf:%s:%d:%d:%d:%d:%s:%d:%d:%d" % (hx(path.encode("utf-8")), cur[0], cur[1], cur[2], 1 if flags["ign"] else 0,
+                                                     hx(newcap), 1 if flags["healthy"] else 0, w.time.now, flags["k"]))
+        outs.append("%s,%s" % ("T" if created else "F", hx(cap)))
+        ctx.case(("toolrun", idx, len(toks)) if had else None)
+        if created:
+            last_upload[path] = (cap, cur)
+            ctx.count("toolrun:file-uploaded" + (":ignore-timestamps" if flags["ign"] else ""))
+            return created, cap, metadata
+        ctx.count("toolrun:file-reused")
+        # ---- monitor: the statement, at the level of the tool
+        rec = last_upload.get(path)
+        if flags["ign"]:
+            ctx.violation("a --ignore-timestamps run reused a cap", case, "tool-run:reuse-with-untrusted-timestamps")
+        elif rec is None:
+            ctx.violation("a run reused a cap for a path without an upload record", case, "tool-run:reuse-without-upload-record")
+        elif rec[1] != cur:
+            ctx.violation("a run reused a cap although (size,mtime,ctime)=%r differ from the most recent upload's %r" % (cur, rec[1]),
+                          case, "tool-run:stat-differs")
+        elif rec[0] != cap:
+            ctx.violation("a run reused %r for a path whose most recent upload (same size/mtime/ctime) gave %r: the snapshot "
+                          "reverts the file to older content" % (cap, rec[0]), case, "tool-run:reused-cap-not-most-recent-upload")
+        return created, cap, metadata
+
+    def upload_directory(path, compare, create):
+        entries = [(k, compare[k]) for k in compare]
+        newd = b"URI:DIR2-CHK:d%d" % (counter[0] + 1)
+        created, dircap = bu.upload_directory(path, compare, create)
+        toks.append("td:%s:%s:%d:%d:%d" % (",".join("%s.%s" % (hx(k.encode("utf-8")), hx(v)) for k, v in entries) or "_", hx(newd),
+                                          1 if flags["healthy"] else 0, w.time.now, flags["k"]))
+        outs.append("%s,%s" % ("T" if created else "F", hx(dircap)))
+        ctx.case(("toolrun-dir", idx, len(toks)) if dir_contents else None)
+        if not created:
+            ctx.count("toolrun:dir-reused")
+            if dir_contents.get(dircap) != dict(compare):
+                ctx.violation("a run reused dircap %r created for other contents" % (dircap,), case, "tool-run:dir-reuse:different-contents")
+        else:
+            ctx.count("toolrun:dir-created")
+        return created, dircap
+
+    try:
+        for st in steps:
+            op = st[0]
+            ctx.count("toolrun-op:" + op + (":ignore-timestamps" if op == "backup" and st[1] else ""))
+            if op in ("create", "loud"):
+                p = put(st[1], bytes.fromhex(st[2]))
+                ov.overlay[p] = (st[3], st[4])
+            elif op == "silent":
+                if os.path.exists(full(st[1])):
+                    put(st[1], bytes.fromhex(st[2]))
+            elif op == "touch":
+                if os.path.exists(full(st[1])):
+                    ov.overlay[full(st[1])] = (st[2], st[3])
+            elif op == "rename":
+                a, b = full(st[1]), full(st[2])
+                if os.path.exists(a) and not os.path.exists(b):
+                    os.makedirs(os.path.dirname(b), exist_ok=True)
+                    os.rename(a, b)
+                    ov.overlay[b] = (ov.overlay.pop(a)[0], st[3])
+            elif op == "tick":
+                w.time.now += st[1]
+            elif op == "backup":
+                flags["ign"], flags["k"], flags["healthy"] = bool(st[1]), st[2], bool(st[3])
+                opts["ignore-timestamps"] = flags["ign"]
+                w.random.k = flags["k"]
+                targets = list(tahoe_backup.collect_backup_targets(root, lambda d: sorted(listdir_unicode(d)), lambda ch: ch))
+                tahoe_backup.run_backup(warn=bu.warn, upload_file=upload_file, upload_directory=upload_directory, targets=targets,
+                                        start_timestamp=datetime.datetime.now(), stdout=io.StringIO())
+            else:
+                raise ValueError(st)
+        toks.append("dump"); outs.append(w.dump())
+    finally:
+        tahoe_backup.do_http, tahoe_backup.mkdir = saved
+        w.close()
+        shutil.rmtree(base, ignore_errors=True)
+    return ";".join(outs), "hist " + " ".join(toks)
+
+
 def run(ctx):
     import traceback
     from common import WORK
@@ -641,12 +874,18 @@ def run(ctx):
     os.makedirs(tmp, exist_ok=True)
     hists = []
     tools = []
+    toolruns = []
     if ctx.replay and ctx.replay["case"].get("phase") == "tool":
         tools = [ctx.replay["case"]["variant"]]
+    elif ctx.replay and ctx.replay["case"].get("phase") == "toolrun":
+        toolruns = [ctx.replay["case"]["steps"]]
     elif ctx.replay:
         hists = [ctx.replay["case"]["steps"]]
     else:
         tools = list(TOOL_VARIANTS)
+        toolruns += TOOLRUN_CORPUS
+        for _ in range(0 if os.environ.get("VERIF_CORPUS_ONLY") else ctx.budget(50, 1500)):
+            toolruns.append(gen_toolrun(ctx.rng, ctx.rng.choice([8, 14, 24])))
         hists += CORPUS
         for _ in range(0 if os.environ.get("VERIF_CORPUS_ONLY") else ctx.budget(250, 6000)):
             hists.append(gen_history(ctx.rng, ctx.rng.choice([8, 20, 40, 90])))
@@ -658,6 +897,15 @@ def run(ctx):
             except Exception:
                 ctx.disagree("harness exception in the tool-level case (BackerUpper.upload no longer drivable as modelled)",
                              {"phase": "tool", "variant": v}, traceback.format_exc()[-1200:], None)
+        for i, h in enumerate(toolruns):
+            case = {"phase": "toolrun", "steps": h}
+            try:
+                out, line = execute_toolrun(ctx, h, tmp, i, case)
+            except Exception:
+                ctx.disagree("harness exception while driving whole backup runs through BackerUpper", case,
+                             traceback.format_exc()[-1200:], None)
+                continue
+            cases.append(case); impl.append(out); lines.append(line)
         for i, h in enumerate(hists):
             on_disk = any(s[0] == "reopen" for s in h)
             dbfile = os.path.join(tmp, "h%d.sqlite" % i) if on_disk else ":memory:"
